@@ -274,7 +274,7 @@ type Engine struct {
 	evFree    map[*ssa.Function]bool
 	// StepOver: do not inline helpers that contain no observable event (opt-in: rules that
 	// watch branch outcomes or bind helper results must see every helper)
-	StepOver bool
+	StepOver  bool
 	Budget    int
 	Exhausted bool
 	// Resolve optionally maps an interface invoke to the single in-scope method that
@@ -857,6 +857,32 @@ func (e *Engine) explore(st *State) {
 				}
 			}
 		}
+		// likewise the nil-ness of an error/pointer phi follows the edge taken
+		// (`err` assigned on one arm only, returned after the arms join)
+		if ph, ok := in.(*ssa.Phi); ok && t.prev != nil && !isBasic(ph.Type()) && !isBoolType(ph.Type()) {
+			for i, pr := range t.blk.Preds {
+				if pr != t.prev || i >= len(ph.Edges) {
+					continue
+				}
+				pk := "v:" + fc.id + ":" + ph.Name()
+				key := "(" + minStr("nil", pk) + "==" + maxStr("nil", pk) + ")"
+				if !e.rule.PredOK(key) {
+					break
+				}
+				ed := ph.Edges[i]
+				switch k, isK := ed.(*ssa.Const); {
+				case isK && k.Value == nil:
+					st.pi[key] = true
+				case e.neverNil(fc, ed, 0):
+					st.pi[key] = false
+				default:
+					ek := e.CanonS(fc, ed)
+					if val, known := st.pi["("+minStr("nil", ek)+"=="+maxStr("nil", ek)+")"]; known {
+						st.pi[key] = val
+					}
+				}
+			}
+		}
 		switch in := in.(type) {
 		case *ssa.If:
 			key, pol, stable := e.PredKey(fc, in.Cond)
@@ -1058,6 +1084,10 @@ func (e *Engine) eventFree(fn *ssa.Function) bool {
 				}
 				if sc := c.StaticCallee(); sc != nil {
 					if e.P.InScope(sc) {
+						free = false
+					}
+					// reflective invocation runs user code (a handler, a filter)
+					if n := sc.String(); n == "(reflect.Value).Call" || n == "(reflect.Value).CallSlice" {
 						free = false
 					}
 					switch PkgOf(sc) {
